@@ -136,6 +136,23 @@ class Monitors(object):
         self.anon = 0
         self._ver_scanned = 1
         self._ver_entries = []
+        self.last_snapshot_conn = None
+
+    def flag(self, prop, kind, msg, **facts):
+        """A monitor saw a violation.  It ends the run if it belongs to the property being checked (or one
+        whose violations count for it); otherwise it is recorded once and the run goes on, so that the
+        consequences for the property being checked can still be observed in the same run."""
+        from .common import RAISED
+        v = Violation(prop, kind, msg, **facts)
+        stop = self.sim.stop_props
+        if stop is None or prop in stop:
+            raise v
+        if v in RAISED:
+            RAISED.remove(v)
+        key = (prop, kind)
+        if key not in self.sim.other_violations:
+            self.sim.other_violations[key] = v
+        return None
 
     # -- hooks used while building a process ------------------------------------------
     def conf_hooks(self, p, kw):
@@ -254,7 +271,7 @@ class Monitors(object):
         sub['cbs'].append((self.sim.step, res, err, p.inc))
         self.obs['cb_' + FAIL_NAMES.get(err, str(err))] += 1
         if len(sub['cbs']) > 1:
-            raise Violation('C02', 'callback_twice', 'uid %d callbacks %r' % (sub['uid'], [(c[0], c[2]) for c in sub['cbs']]),
+            self.flag('C02', 'callback_twice', 'uid %d callbacks %r' % (sub['uid'], [(c[0], c[2]) for c in sub['cbs']]),
                             reasons=[c[2] for c in sub['cbs']])
         if err != 0:
             self.sit['non_success_callback'] += 1
@@ -267,11 +284,11 @@ class Monitors(object):
         hc = h32(cmd)
         old = self.cmd_of.setdefault(key, hc)
         if old != hc:
-            raise Violation('C04', 'log_matching_cmd', 'two different commands stored as (idx=%d, term=%d)' % key, idx=idx, term=term)
+            self.flag('C04', 'log_matching_cmd', 'two different commands stored as (idx=%d, term=%d)' % key, idx=idx, term=term)
         if prev is not None and prev[1] == idx - 1:
             o = self.prev_of.setdefault(key, prev[2])
             if o != prev[2]:
-                raise Violation('C04', 'log_matching_prev', 'entry (idx=%d, term=%d) follows terms %d and %d' % (idx, term, o, prev[2]),
+                self.flag('C04', 'log_matching_prev', 'entry (idx=%d, term=%d) follows terms %d and %d' % (idx, term, o, prev[2]),
                                 idx=idx, term=term)
         c = self.committed.get(idx)
         if c is not None and c[0] != term and p is not None:
@@ -279,7 +296,7 @@ class Monitors(object):
             # is committed elsewhere.  What must not happen: a node that held the committed entry,
             # or knows the position to be committed, stores something else there.
             if idx in p.dropped_committed or (p.last_commit is not None and p.last_commit >= idx):
-                raise Violation('C04', 'committed_overwritten', '%r stores term %d at committed position %d (committed term %d)'
+                self.flag('C04', 'committed_overwritten', '%r stores term %d at committed position %d (committed term %d)'
                                 % (p, term, idx, c[0]), idx=idx)
 
     def msg_summary(self, msg):
@@ -303,7 +320,7 @@ class Monitors(object):
         self.obs['sent_' + str(t)] += 1
         if t in ('request_vote', 'response_vote'):
             if not p.voter:
-                raise Violation('C18', 'observer_votes', 'read-only node %r sent %s' % (p, t))
+                self.flag('C18', 'observer_votes', 'read-only node %r sent %s' % (p, t))
             term = msg['term']
             cand = p.key if t == 'request_vote' else dest
             self.note_vote(p, term, cand)
@@ -320,6 +337,8 @@ class Monitors(object):
                 self.obs['chunked_entry_msgs'] += 1
             if msg.get('serialized') is not None:
                 self.obs['snapshot_chunks_sent'] += 1
+                if not msg['serialized'][2]:
+                    self.last_snapshot_conn = conn.cid
         if t in ('request_vote', 'response_vote', 'next_node_idx') and p.voter:
             self.note_ack_term(p, p.obj.raftCurrentTerm, acting=t)
         for e in self.ext:
@@ -332,14 +351,14 @@ class Monitors(object):
         if len(d) > 1:
             incs = set(d.values())
             restart = len(incs) > 1
-            raise Violation('C07' if restart else 'C03', 'double_vote',
+            self.flag('C07' if restart else 'C03', 'double_vote',
                             '%s voted for %s in term %d' % (p.key, sorted(d), term),
                             voter_restarted_between_grants=restart)
 
     def note_ack_term(self, p, term, acting=None):
         cur = self.ackterm.get(p.key)
         if cur is not None and term < cur[0] and acting is not None:
-            raise Violation('C07', 'acts_in_older_term',
+            self.flag('C07', 'acts_in_older_term',
                             '%r sends %s in term %d after %s had acknowledged term %d' % (p, acting, term, p.key, cur[0]),
                             restart_between=(cur[1] != p.inc), acting=acting)
         if cur is None or term > cur[0]:
@@ -390,14 +409,14 @@ class Monitors(object):
         self.obs['state_%d_%d' % (old, new)] += 1
         p.rstate = new
         if not p.voter and new != 0:
-            raise Violation('C18', 'observer_role', 'read-only node %r entered raft state %d' % (p, new))
+            self.flag('C18', 'observer_role', 'read-only node %r entered raft state %d' % (p, new))
         if new == 2:
             p.leader_since = CLK.now
             p.heard = {}
         if new == 1 and self.quiet is not None and self.quiet.get('leader_seen'):
             la = self.last_ae.get(p.key)
             if la is not None and CLK.now - la < p.conf.raftMinTimeout - 1e-3 and old == 0:
-                raise Violation('C05', 'spurious_election',
+                self.flag('C05', 'spurious_election',
                                 '%r starts an election %.3fs after an append_entries of its leader' % (p, CLK.now - la))
         for e in self.ext:
             e.on_state_change(p, old, new)
@@ -474,7 +493,7 @@ class Monitors(object):
         if p._t0 - kth > fb * 0.5:
             self.sit['leader_silent_half_timeout'] += 1
         if p._t0 - kth > fb + 1e-3:
-            raise Violation('C20', 'no_stepdown',
+            self.flag('C20', 'no_stepdown',
                             '%r still leader after tick at t=%.3f; majority-completing voter last heard %.3fs ago > fallback %.3f'
                             % (p, p._t0, p._t0 - kth, fb), n=n)
 
@@ -513,14 +532,15 @@ class Monitors(object):
                 f = j.first_idx()
                 if f is not None and pos < f:
                     if pos not in self.committed:
-                        raise Violation('C04', 'commit_unknown_compacted', '%r commit index %d covers position %d that nobody committed' % (p, c1, pos))
+                        self.flag('C04', 'commit_unknown_compacted', '%r commit index %d covers position %d that nobody committed' % (p, c1, pos))
                     continue
-                raise Violation('C04', 'commit_beyond_log', '%r reports commit index %d but its log ends at %r' % (p, c1, j.last_idx()),
-                                role='leader' if p.obj._isLeader() else 'follower')
+                self.flag('C04', 'commit_beyond_log', '%r reports commit index %d but its log ends at %r' % (p, c1, j.last_idx()),
+                          role='leader' if p.obj._isLeader() else 'follower')
+                continue
             known = self.committed.get(pos)
             if known is not None:
                 if known[0] != e[2] or known[1] != e[0]:
-                    raise Violation('C04', 'committed_entry_differs',
+                    self.flag('C04', 'committed_entry_differs',
                                     '%r reports position %d committed with term %d, but it was committed with term %d'
                                     % (p, pos, e[2], known[0]), role='leader' if p.obj._isLeader() else 'follower', pos=pos)
                 continue
@@ -533,7 +553,7 @@ class Monitors(object):
                 have, tot, ok = self.majority(p.prev_members, pos, e[2])
             self.obs['commit_majority_checks'] += 1
             if not ok:
-                raise Violation('C04', 'commit_without_majority',
+                self.flag('C04', 'commit_without_majority',
                                 '%r reports position %d (term %d) committed; stored by %d of %d voters at this step'
                                 % (p, pos, e[2], have, tot), role='leader' if p.obj._isLeader() else 'follower', pos=pos,
                                 observers=len(sim.ro_keys))
@@ -545,6 +565,15 @@ class Monitors(object):
             if pos > self.maxc:
                 self.maxc = pos
             self.advance_model()
+        if c1 > c0 and p.obj._isLeader() and not p.dead:
+            # a leader decides commits by counting replicas only for entries of its own term (older ones
+            # become committed with them): the highest position it newly reports must be of its current term,
+            # otherwise a later leader can lack the entry although a majority stores it (Raft, figure 8)
+            top = j.entry(c1)
+            if top is not None and top[2] != p.obj.raftCurrentTerm:
+                self.flag('C04', 'commit_of_older_term_by_counting',
+                          '%r (leader of term %d) advanced its commit index to %d whose entry is of term %d'
+                          % (p, p.obj.raftCurrentTerm, c1, top[2]), pos=c1)
         if c1 > c0:
             # deciding situation: commit advance with >= 2 append_entries in flight to one follower
             if p.obj._isLeader():
@@ -574,12 +603,12 @@ class Monitors(object):
                 sub = subs[0]
                 if not sub.get('ambiguous'):
                     if sub['uid'] in self.pos_of_uid:
-                        raise Violation('C02', 'committed_twice', 'uid %d committed at positions %d and %d'
+                        self.flag('C02', 'committed_twice', 'uid %d committed at positions %d and %d'
                                         % (sub['uid'], self.pos_of_uid[sub['uid']], pos))
                     self.pos_of_uid[sub['uid']] = pos
                     for (_, _, err, _) in sub['cbs']:
                         if err in NEVER_APPLIED:
-                            raise Violation('C02', 'failed_but_committed', 'uid %d reported %s but is committed at %d'
+                            self.flag('C02', 'failed_but_committed', 'uid %d reported %s but is committed at %d'
                                             % (sub['uid'], FAIL_NAMES[err], pos), reason=FAIL_NAMES[err])
                 else:
                     self.obs['ambiguous_commands_committed'] += 1
@@ -637,14 +666,17 @@ class Monitors(object):
             self.obs['apply_events'] += 1
             exp = self.next_regular(cur, self.maxc)
             if pos in p.raised_pos:
-                raise Violation('C12', 'reapply_after_raise', '%r executes position %d again after the method raised there '
+                self.flag('C12', 'reapply_after_raise', '%r executes position %d again after the method raised there '
                                 '(applied index stays at %d)' % (p, pos, a1))
             if out[0] == 'exc':
                 p.raised_pos.add(pos)
             if exp is None or pos != exp:
-                raise Violation('C01', 'apply_wrong_position',
+                self.flag('C01', 'apply_wrong_position',
                                 '%r executed a command as position %d; next committed user command after %d is at %r'
                                 % (p, pos, cur, exp), expected=exp, got=pos)
+                if pos not in self.committed:
+                    cur = max(cur, pos)
+                    continue
             term, cmd = self.committed[pos][:2]
             try:
                 dec = _pickle.loads(cmd[1:])
@@ -657,13 +689,13 @@ class Monitors(object):
             else:
                 dfid, dargs, dkw = dec
             if dfid != fid or canon_value(tuple(dargs)) != args or canon_value(dkw) != kw:
-                raise Violation('C01', 'apply_differs_from_committed',
+                self.flag('C01', 'apply_differs_from_committed',
                                 '%r executed method %r%r at position %d, committed entry is %r%r' % (p, fid, args, pos, dfid, dargs))
             m = self.mret.get(pos)
             if m is not None:
                 got = (out[0], out[1])
                 if got != m:
-                    raise Violation('C01', 'apply_result_differs', '%r position %d returned %r, reference model %r' % (p, pos, got, m))
+                    self.flag('C01', 'apply_result_differs', '%r position %d returned %r, reference model %r' % (p, pos, got, m))
             if out[0] == 'exc':
                 # the entry raised: the property (C12) wants the node to move past it
                 self.obs['apply_raised'] += 1
@@ -672,10 +704,10 @@ class Monitors(object):
         if a1 > cur:
             nr = self.next_regular(cur, min(a1, self.maxc))
             if nr is not None:
-                raise Violation('C01', 'apply_skipped', '%r moved its applied index to %d without executing the user command at %d'
+                self.flag('C01', 'apply_skipped', '%r moved its applied index to %d without executing the user command at %d'
                                 % (p, a1, nr), pos=nr)
         if a1 > self.maxc:
-            raise Violation('C01', 'applied_uncommitted', '%r applied index %d beyond every reported commit index %d' % (p, a1, self.maxc))
+            self.flag('C01', 'applied_uncommitted', '%r applied index %d beyond every reported commit index %d' % (p, a1, self.maxc))
         # state = replay of prefix (not judged on the memory of a process that was killed in this step)
         if p.dead:
             return
@@ -691,14 +723,14 @@ class Monitors(object):
                     nc = cheap_digest(d, p.consumers)
                 self.obs['digest_checks'] += 1
                 if nc != mc:
-                    raise Violation('C01', 'state_differs_from_prefix', '%r at applied index %d has digest %r, replay of the prefix gives %r'
+                    self.flag('C01', 'state_differs_from_prefix', '%r at applied index %d has digest %r, replay of the prefix gives %r'
                                     % (p, a1, nc, mc), after_snapshot=jumped)
                 if fullcheck:
                     mf = self.model_full_at(a1)
                     p.full_checks += 1
                     self.obs['full_digest_checks'] += 1
                     if mf is not None and mf[0] != nf:
-                        raise Violation('C01', 'state_differs_from_prefix',
+                        self.flag('C01', 'state_differs_from_prefix',
                                         '%r at applied index %d: full state differs from replay of the prefix' % (p, a1),
                                         after_snapshot=jumped)
 
@@ -719,7 +751,7 @@ class Monitors(object):
                     voters = self.voters_of(p)
                     have, tot, ok = self.majority(voters, idx, term)
                     if not ok:
-                        raise Violation('C04', 'committed_entry_lost_majority',
+                        self.flag('C04', 'committed_entry_lost_majority',
                                         '%r dropped committed entry %d (term %d) by %s; now stored by %d of %d voters'
                                         % (p, idx, term, kind, have, tot), op=kind)
             if m[0] == 'cut':
@@ -738,7 +770,7 @@ class Monitors(object):
             if p.key not in s:
                 s[p.key] = p.inc
                 if len(s) > 1:
-                    raise Violation('C07' if self.kills else 'C03', 'two_leaders_one_term',
+                    self.flag('C07' if self.kills else 'C03', 'two_leaders_one_term',
                                     'term %d has leaders %s' % (term, sorted(s)), term=term, restarts=self.kills)
             if not p.was_leader or p.leader_term != term:
                 # became leader in this step: leader completeness
@@ -753,7 +785,7 @@ class Monitors(object):
                         continue
                     e = j.entry(pos)
                     if e is None or e[2] != c[0]:
-                        raise Violation('C07' if self.kills else 'C03', 'leader_incomplete',
+                        self.flag('C07' if self.kills else 'C03', 'leader_incomplete',
                                         '%r became leader of term %d without committed entry %d (term %d); its log holds %r'
                                         % (p, term, pos, c[0], (e[1], e[2]) if e else None), pos=pos, restarts=self.kills)
                 for q in self.sim.live():
@@ -765,7 +797,7 @@ class Monitors(object):
                     self.sit['leader_change_with_uncommitted_entries'] += 1
                 p.leader_term = term
         elif not p.voter and obj._isLeader():
-            raise Violation('C18', 'observer_role', 'read-only node %r reports itself leader' % (p,))
+            self.flag('C18', 'observer_role', 'read-only node %r reports itself leader' % (p,))
         if p.voter and getattr(p, 'rstate', 0) == 1:
             ncand = sum(1 for q in self.sim.live() if q.voter and getattr(q, 'rstate', 0) == 1)
             if ncand >= 2:
@@ -789,7 +821,7 @@ class Monitors(object):
         if not exp:
             self.sit['quorum_flag_false'] += 1
         if bool(obj.hasQuorum) != exp:
-            raise Violation('C20', 'has_quorum_wrong', '%r hasQuorum=%r but connected to %d of %d known voters (self voter=%d)'
+            self.flag('C20', 'has_quorum_wrong', '%r hasQuorum=%r but connected to %d of %d known voters (self voter=%d)'
                             % (p, obj.hasQuorum, conn, len(known), selfv))
 
     def after_step(self, p, action):
@@ -826,9 +858,9 @@ class Monitors(object):
         a0 = p.last_applied
         loads = [e for e in p.events if e[0] == 'load']
         if c1 < c0:
-            raise Violation('C04', 'commit_index_backwards', '%r commit index %d -> %d' % (p, c0, c1), after_load=bool(loads))
+            self.flag('C04', 'commit_index_backwards', '%r commit index %d -> %d' % (p, c0, c1), after_load=bool(loads))
         if a1 < a0:
-            raise Violation('C04', 'applied_index_backwards', '%r applied index %d -> %d' % (p, a0, a1), after_load=bool(loads))
+            self.flag('C04', 'applied_index_backwards', '%r applied index %d -> %d' % (p, a0, a1), after_load=bool(loads))
         if p.journal.muts:
             self.check_retention(p)
         if c1 > c0:
@@ -861,25 +893,25 @@ class Monitors(object):
             if err == 0:
                 pos = self.pos_of_uid.get(uid)
                 if pos is None:
-                    raise Violation('C02', 'success_not_committed', 'uid %d reported SUCCESS by %r but occupies no committed position'
+                    self.flag('C02', 'success_not_committed', 'uid %d reported SUCCESS by %r but occupies no committed position'
                                     % (uid, p), role=sub.get('role'))
                 if p.obj.raftLastApplied < pos and not p.dead:
-                    raise Violation('C02', 'success_before_apply', 'uid %d reported SUCCESS by %r (applied %d) before position %d was applied'
+                    self.flag('C02', 'success_before_apply', 'uid %d reported SUCCESS by %r (applied %d) before position %d was applied'
                                     % (uid, p, p.obj.raftLastApplied, pos))
                 m = self.mret.get(pos)
                 if m is not None and m[0] == 'ret' and canon_value(res) != m[1]:
-                    raise Violation('C02', 'success_wrong_result', 'uid %d SUCCESS result %r, executing position %d returns %r'
+                    self.flag('C02', 'success_wrong_result', 'uid %d SUCCESS result %r, executing position %d returns %r'
                                     % (uid, res, pos, m[1]))
                 self.obs['success_checked'] += 1
                 if sub.get('role') != 'leader':
                     self.sit['success_for_forwarded_command'] += 1
                 cs = self.cut_since.get(p.key)
                 if cs is not None and uid > 100000 + cs[1] and not self.cfg.get('dynamic'):
-                    raise Violation('C20', 'success_while_cut_off', '%r acknowledged uid %d with SUCCESS while cut off from all voters since t=%.3f'
+                    self.flag('C20', 'success_while_cut_off', '%r acknowledged uid %d with SUCCESS while cut off from all voters since t=%.3f'
                                     % (p, uid, cs[0]))
             elif err in NEVER_APPLIED:
                 if uid in self.pos_of_uid:
-                    raise Violation('C02', 'failed_but_committed', 'uid %d reported %s but is committed at %d'
+                    self.flag('C02', 'failed_but_committed', 'uid %d reported %s but is committed at %d'
                                     % (uid, FAIL_NAMES[err], self.pos_of_uid[uid]), reason=FAIL_NAMES[err])
 
     # -- C05: quiet phase -----------------------------------------------------------
@@ -967,8 +999,9 @@ class Monitors(object):
         if not q['leader_seen'] and now > q['leader_deadline'] and judge:
             nv = [p for p in live if p.voter]
             if len(nv) > len(self.current_voters()) / 2.0:
-                raise Violation('C05', 'no_leader', 'no leader %.1fs after faults stopped (%d voters alive)' % (now - q['t0'], len(nv)),
-                                dial_impossible=self.dial_impossible())
+                self.flag('C05', 'no_leader', 'no leader %.1fs after faults stopped (%d voters alive)' % (now - q['t0'], len(nv)),
+                          dial_impossible=self.dial_impossible())
+                return 'failed'
         if q['stage'] == 'converge':
             # "stable" = one leader and equal applied indexes continuously for two maximal election
             # timeouts (every follower's timer has been reset by this leader since)
@@ -995,8 +1028,9 @@ class Monitors(object):
             for s in done:
                 err = s['cbs'][0][2]
                 if err != 0 and judge:
-                    raise Violation('C05', 'post_quiet_command_failed', 'command submitted on %s after convergence reported %s'
-                                    % (s['key'], FAIL_NAMES.get(err, err)), reason=FAIL_NAMES.get(err, str(err)))
+                    self.flag('C05', 'post_quiet_command_failed', 'command submitted on %s after convergence reported %s'
+                              % (s['key'], FAIL_NAMES.get(err, err)), reason=FAIL_NAMES.get(err, str(err)))
+                    return 'failed'
             if len(done) == len(q['final']) and q['todo'] == 0 and self.converged_basic():
                 self.check_equal_replicas('C05')
                 self.obs['converged'] += 1
@@ -1006,8 +1040,9 @@ class Monitors(object):
             ph = self.phi()
             if ph == q['phi']:
                 if judge:
-                    raise Violation('C05', 'stuck', 'no progress during %.1fs of fair regime: %r' % (q['W'], self.describe_stuck()),
-                                    **self.stuck_facts())
+                    self.flag('C05', 'stuck', 'no progress during %.1fs of fair regime: %r' % (q['W'], self.describe_stuck()),
+                              **self.stuck_facts())
+                    return 'failed'
                 sim.inconclusive = 'not converged (liveness not judged for this configuration)'
                 return 'notjudged'
             q['phi'] = ph
@@ -1059,12 +1094,12 @@ class Monitors(object):
         for p in live:
             digs[p.key] = self.node_digests(p)[0]
         if len(set(digs.values())) > 1:
-            raise Violation(prop, 'replicas_differ', 'connected replicas at the same applied index have different states: %r' % digs)
+            self.flag(prop, 'replicas_differ', 'connected replicas at the same applied index have different states: %r' % digs)
         a = live[0].obj.raftLastApplied if live else None
         if a is not None and (self.model_broken is None or a < self.model_broken):
             mf = self.model_full_at(a)
             if mf is not None and mf[0] != digs[live[0].key]:
-                raise Violation('C01', 'state_differs_from_prefix', 'all replicas agree at %d but differ from the replay of the committed prefix' % a,
+                self.flag('C01', 'state_differs_from_prefix', 'all replicas agree at %d but differ from the replay of the committed prefix' % a,
                                 after_snapshot=False)
 
     # -- end of run -----------------------------------------------------------------
@@ -1076,9 +1111,9 @@ class Monitors(object):
                 continue
             for (_, res, err, _) in sub['cbs']:
                 if err in NEVER_APPLIED and uid in self.pos_of_uid:
-                    raise Violation('C02', 'failed_but_committed', 'uid %d reported %s but is committed at %d'
+                    self.flag('C02', 'failed_but_committed', 'uid %d reported %s but is committed at %d'
                                     % (uid, FAIL_NAMES[err], self.pos_of_uid[uid]), reason=FAIL_NAMES[err])
                 if err == 0 and uid not in self.pos_of_uid:
-                    raise Violation('C02', 'success_not_committed', 'uid %d reported SUCCESS but occupies no committed position' % uid)
+                    self.flag('C02', 'success_not_committed', 'uid %d reported SUCCESS but occupies no committed position' % uid)
         for e in self.ext:
             e.end_of_run()
